@@ -320,8 +320,8 @@ theorem passes_balanced (bs : List MBar) (hd : ∀ b ∈ bs, distinctKeys b.entr
 def demoNote (nm : String) (o ch vel : Int) : Note := ⟨nm.toList, o, ch, vel⟩
 def demoTrack : MTrack :=
   ⟨"lead".toList, some 42,
-   [⟨"Eb".toList, 3, 4, [⟨4, []⟩, ⟨4, [demoNote "Eb" 4 9 100, demoNote "G" 4 2 64]⟩, ⟨8, []⟩, ⟨8, [demoNote "Bb" 3 9 1]⟩]⟩,
-    ⟨"f#".toList, 6, 8, [⟨8 / 3 * 2, [demoNote "C#" 5 0 127]⟩]⟩]⟩
+   [⟨"Eb".toList, 3, 4, [⟨4, [], none⟩, ⟨4, [demoNote "Eb" 4 9 100, demoNote "G" 4 2 64], none⟩, ⟨8, [], none⟩, ⟨8, [demoNote "Bb" 3 9 1], none⟩]⟩,
+    ⟨"f#".toList, 6, 8, [⟨8 / 3 * 2, [demoNote "C#" 5 0 127], none⟩]⟩]⟩
 
 example : writeTrack demoTrack 120 1 =
     .ok (fileBytes [⟨tempoEv 120 :: (specPasses (fun s => specTrack s demoTrack) 2 s0).1, 54, 0, false, 42⟩]) := by
